@@ -7,3 +7,6 @@ import Resvg.Props.C19
 #print axioms Resvg.Props.C19.findById_node
 #print axioms Resvg.Props.C19.findById_list
 #print axioms Resvg.Props.C19.C19_node_by_id_iff_carried
+#print axioms Resvg.Props.C19.scaled_box_origin
+#print axioms Resvg.Props.C19.C19_image_export_origin
+#print axioms Resvg.Props.C19.C19_old_image_export_off_canvas
